@@ -149,6 +149,11 @@ def run(c: Check):
                 c.count("error:" + r["error"].split(":")[0])
                 continue
             c.evaluations += 1
+            if "load_error" in r:
+                kind = "enum-scalar" if any(e2 in r["load_error"] for e2 in ("Level", "Mode")) else r["load_error"].split(":")[0]
+                c.violation(f"C12:load-raises:{kind}", "loading back what was just saved raises",
+                            dict(desc=x["desc"], root=x["root"], error=r["load_error"]))
+                continue
             c.count(f"definitions={min(len(r['defs']), 8)}")
             if len(r["defs"]) >= 3:
                 c.nontrivial.add(json.dumps([x["desc"], x["root"]], sort_keys=True))
